@@ -211,6 +211,14 @@ func (d *driver) replay(id int, s schedule) {
 				continue
 			}
 			d.step(oi, a.F, 0)
+			// The model's retry loop of pods/binding ends after one failed try (MaxBindTries = 1); the code's loop is
+			// bounded by wall-clock time (500 ms ticks for 3 s). Let the real loop run out before going on, so that the
+			// operation ends where the model's did and the rest of the schedule lines up.
+			if oi.typ == "bind" && oi.op.Last != nil && oi.op.Last.Name == "binding" && oi.op.Last.Ret["res"] != "ok" {
+				for guard := 0; guard < 12 && !oi.op.Done && !oi.op.Dead && oi.op.Pending != nil && oi.op.Pending.Name == "binding" && !d.hung; guard++ {
+					d.step(oi, 0, 0)
+				}
+			}
 		default:
 			skipped++
 		}
